@@ -47,8 +47,10 @@ public:
     }
     void *alloc(std::size_t sz) {
         if (sz > _capacity) {
+            //allocate first - if it throws, the storage still owns its (valid) block
+            void *p = ::operator new(sz);
             ::operator delete (_ptr);
-            _ptr = ::operator new(sz);
+            _ptr = p;
             _capacity = sz;
         }
         return _ptr;
